@@ -7,7 +7,15 @@
 //! the statement is logged with its outcome (committed at seq / refused / dry run).
 //! C18 (-> HistoryTrace.tla): after every commit a fixed battery of queries is recorded live; after every later
 //! statement every earlier coordinate is replayed AS OF SEQ / TX / TIME.
-use anda_cognitive_nexus::CognitiveNexus;
+use anda_cognitive_nexus::{
+    CognitiveNexus,
+    governance::{
+        AuthContext, SYSTEM_PRINCIPAL,
+        rows::{AuthorityConditions, AuthorityConstraints, AuthorityScope, principal_class},
+        store::{GrantDraft, PrincipalDraft},
+    },
+    nexus::DEFAULT_SPACE,
+};
 use anda_db::collection::Collection;
 use anda_kip::{Executor, Request, Response};
 use serde_json::{Value, json};
@@ -128,6 +136,56 @@ fn dump_json(d: &Dump, ids: &mut Intern, digests: &mut Intern) -> Value {
     json!({"elems": elems, "tuples": tuples, "keys": keys, "journal": d.journal, "vlog": vlog, "space_seq": d.space_seq})
 }
 
+/// Two restricted principals written through the host control plane: `reader` (read / search / discover) and
+/// `creator` (read + create + update, but no archive / tombstone / purge / assert).
+async fn restricted_principals(nexus: &CognitiveNexus) {
+    let gov = &nexus.store.governance;
+    for (name, acts) in [("reader", vec!["read", "search", "discover"]), ("creator", vec!["read", "discover", "create", "update"])] {
+        let id = format!("kip:principal:verif-{name}");
+        gov.ensure_principal(PrincipalDraft {
+            principal_id: id.clone(),
+            principal_class: principal_class::AGENT.to_string(),
+            display_name: name.to_string(),
+            auth_provider: "verif".to_string(),
+            auth_subject: id.clone(),
+        })
+        .await
+        .expect("ensure_principal");
+        gov.create_grant(
+            GrantDraft {
+                space_id: DEFAULT_SPACE.to_string(),
+                grantee_principal: id,
+                grantee_group: String::new(),
+                actions: acts.into_iter().map(String::from).collect(),
+                scope: AuthorityScope::default(),
+                conditions: AuthorityConditions::default(),
+                constraints: AuthorityConstraints::default(),
+                delegation_allowed: false,
+            },
+            SYSTEM_PRINCIPAL,
+        )
+        .await
+        .expect("create_grant");
+    }
+}
+
+async fn run_cmd_as(nexus: &CognitiveNexus, who: &str, command: &str, params: &Value, dry: bool) -> Result<Response, String> {
+    if who.is_empty() {
+        return run_cmd(nexus, command, params, dry).await;
+    }
+    let mut request = serde_json::from_value::<Request>(json!({
+        "kip": "2.0",
+        "operations": [{"command": command, "parameters": params}]
+    }))
+    .map_err(|e| format!("request: {e}"))?;
+    if dry {
+        request.options = Some(anda_kip::RequestOptions { dry_run: Some(true), ..Default::default() });
+    }
+    let parsed = request.operations[0].parse().map_err(|e| format!("parse: {e}"))?;
+    let session = nexus.session(AuthContext::principal(format!("kip:principal:verif-{who}")));
+    Ok(session.execute(parsed, &request, &request.operations[0]).await)
+}
+
 async fn run_cmd(nexus: &CognitiveNexus, command: &str, params: &Value, dry: bool) -> Result<Response, String> {
     let mut request = serde_json::from_value::<Request>(json!({
         "kip": "2.0",
@@ -217,6 +275,9 @@ async fn run_history(h: &Value, tx: &mut Vec<Value>, hist: &mut Vec<Value>, stat
     let name = h["name"].as_str().unwrap();
     let nexus = fresh(&format!("v{}", stats.0)).await;
     stats.0 += 1;
+    if h["principals"].as_bool().unwrap_or(false) {
+        restricted_principals(&nexus).await;
+    }
     let mut ids = Intern::default();
     let mut digests = Intern::default();
     let queries: Vec<String> = h["battery"].as_array().map(|a| a.iter().map(|x| x.as_str().unwrap().to_string()).collect()).unwrap_or_default();
@@ -244,7 +305,7 @@ async fn run_history(h: &Value, tx: &mut Vec<Value>, hist: &mut Vec<Value>, stat
         let text = resolve(&nexus, s["text"].as_str().unwrap()).await;
         let dry = s["dry"].as_bool().unwrap_or(false);
         let purges = text.contains("PURGE");
-        let r = run_cmd(&nexus, &text, &s["params"], dry).await;
+        let r = run_cmd_as(&nexus, s["as"].as_str().unwrap_or(""), &text, &s["params"], dry).await;
         let post = dump(&nexus).await;
         let (outcome, seq, code) = match &r {
             Err(e) => ("refused", 0u64, format!("parse:{}", e.chars().take(60).collect::<String>())),
